@@ -41,6 +41,18 @@ pub fn check(t: &Trace<'_>, out: &mut CaseOut) -> bool {
     let m = Model::build(t);
     let cfg = &t.log.cfg;
     let mut nontrivial = false;
+    // ---- acknowledgements: what the broker decodes is the acknowledgement that was owed (kind,
+    // identifier, reason code), as worked out by the inbound model of C04
+    {
+        let mut tmp = CaseOut::default();
+        super::c04::check(t, &mut tmp);
+        out.count("acknowledgements_compared", tmp.counters.get("acks_on_wire").copied().unwrap_or(0));
+        for v in tmp.violations {
+            if v.sig.contains("/ack-mismatch") || v.sig.contains("/ack-malformed") {
+                out.violations.push(viol("C09", v.sig.replace("C04/", "C09/acknowledgement/"), v.msg));
+            }
+        }
+    }
     // ---- CONNECT
     let mut server_ka: Option<u16> = None;
     let mut expect_id = cfg.client_id.clone();
